@@ -115,6 +115,11 @@ def runCase (P : Poset) (enc : Option Enc) (m : Measure) (steps : List Step)
   | .declined w cap => s!"declined {w}:{cap} 0 - - - -"
   | .notATree => "notatree - 0 - - - -"
   | .ok idx =>
+    -- the executable hypotheses of `C28_chain_reach_iff_partial`, discharged per case
+    let hypOk := match idx with
+      | .chain i => topoOkB P P.topoUp && chainsOkB P i.C
+      | _ => true
+    if !hypOk then "chain-hypotheses-failed - 0 - - - -" else
     let w := match idx.width with | some w => toString w | none => "-"
     let subs := orDash (String.join (pairs.map (fun p => if idx.subsumes p.1 p.2 then "1" else "0")))
     let desc := orDash (joinWith ";" (ys.map (fun y => s!"{y}:" ++ showNats (idx.descendants y))))
